@@ -362,13 +362,15 @@ Qed.
 
 (* NtfnsHandler.Start on a coherent process: it succeeds ("the wallet opens"), it is live
    processing of the announcements [catchup_events], and as repaired it ends on the node's tip *)
-Lemma start_ok : forall tipfix ff A pr,
-  PInv A pr -> incl A B -> safe_point g ff pr ->
+Lemma start_ok_noff : forall tipfix ff A pr,
+  PInv A pr -> incl A B ->
+  no_ready_wallet pr && (ff <? chain_height (s_node (pr_sim pr))) = false ->
+  (last (s_node (pr_sim pr)) g <> g \/ snd (tip (s_wallet (pr_sim pr))) = b_id g) ->
   exists pr', start p tipfix ff g pr = Some pr' /\ pr' = prun p pr (catchup_events tipfix g pr) /\
     PInv A pr' /\ s_node (pr_sim pr') = s_node (pr_sim pr) /\ s_own (pr_sim pr') = s_own (pr_sim pr) /\
     (tipfix = true -> snd (tip (s_wallet (pr_sim pr'))) = b_id (last (s_node (pr_sim pr)) g)).
 Proof.
-  intros tipfix ff A pr Hinv HAB [Hnoff Hgen].
+  intros tipfix ff A pr Hinv HAB Hnoff Hgen.
   set (n := s_node (pr_sim pr)). set (hs := fst (tip (s_wallet (pr_sim pr)))).
   destruct (catch_up_ok (above n hs) A pr Hinv HAB (above_ok A pr Hinv)) as [pr1 [Hcu [Hinv1 [Hn1 [Ho1 Hlast1]]]]].
   unfold start. rewrite Hnoff. fold n. fold hs. rewrite Hcu.
@@ -433,6 +435,149 @@ Proof.
         destruct (linked_heights_split _ _ _ Hl) as [H1 H2].
         pose proof (H1 b Hb). pose proof (H2 (last n g) (or_introl eq_refl)). lia. }
     rewrite Hlast. reflexivity.
+Qed.
+
+
+(* ---------------------------------------------------------------- the fast-forward branch of Start *)
+
+Lemma coins_of_outs_none : forall t h bid outs i, coins_of_outs (own_of []) t h bid outs i = [].
+Proof.
+  intros t h bid outs. induction outs as [|o outs IH]; intros i; [reflexivity|].
+  cbn [coins_of_outs]. rewrite IH. destruct (o_class o); reflexivity.
+Qed.
+
+Lemma E_none : forall l, E p (own_of []) l = [].
+Proof.
+  intros l. unfold E, mkE. replace (coins_l (own_of []) l) with (@nil coin); [reflexivity|].
+  symmetry. unfold coins_l. induction l as [|x l IH]; [reflexivity|].
+  cbn [flat_map]. rewrite IH. unfold coins_pt. rewrite coins_of_outs_none. reflexivity.
+Qed.
+
+Lemma with_wallet_twice : forall s a b, with_wallet (with_wallet s a) b = with_wallet s b.
+Proof. reflexivity. Qed.
+
+Lemma linked_app_tail : forall a b pv h, linked pv h (a ++ b) -> exists pv', linked pv' (h + Z.of_nat (length a)) b.
+Proof.
+  induction a as [|x a IH]; intros b pv h H.
+  - exists pv. cbn [app length Z.of_nat] in *. rewrite Z.add_0_r. exact H.
+  - cbn [app linked] in H. destruct H as [_ [_ H]]. destruct (IH _ _ _ H) as [pv' H'].
+    exists pv'. cbn [length]. replace (h + Z.of_nat (S (length a))) with (h + 1 + Z.of_nat (length a)) by lia. exact H'.
+Qed.
+
+Lemma linked_ge : forall m pv h x, linked pv h m -> In x m -> h <= b_height x.
+Proof.
+  intros m pv h x Hl Hin. apply in_split in Hin. destruct Hin as [a [b Hm]]. subst m.
+  rewrite (linked_height _ _ _ _ _ Hl). lia.
+Qed.
+
+Lemma filter_height_split : forall m pv h t, linked pv h m ->
+  m = filter (fun b => b_height b <? t) m ++ filter (fun b => negb (b_height b <? t)) m.
+Proof.
+  induction m as [|b r IH]; intros pv h t Hl; [reflexivity|].
+  cbn [linked] in Hl. destruct Hl as [_ [Hh Hr]]. cbn [filter].
+  destruct (b_height b <? t) eqn:Hlt; cbn [negb app].
+  - f_equal. apply (IH _ _ _ Hr).
+  - apply Z.ltb_ge in Hlt.
+    rewrite (filter_all_false _ (fun b0 => b_height b0 <? t) r).
+    + cbn [app]. f_equal. symmetry. apply filter_all_true. intros x Hx.
+      pose proof (linked_ge _ _ _ _ Hr Hx). apply negb_true_iff. apply Z.ltb_ge. lia.
+    + intros x Hx. pose proof (linked_ge _ _ _ _ Hr Hx). apply Z.ltb_ge. lia.
+Qed.
+
+Lemma above_chain : forall n c m, wf_chain n -> n = c ++ m -> c <> [] -> above n (chain_height c) = m.
+Proof.
+  intros n c m Hwf Hn Hc. destruct (wf_linked _ Hwf) as [pv Hl]. rewrite Hn in Hl.
+  destruct (linked_heights_split _ _ _ Hl) as [H1 H2].
+  unfold above. rewrite Hn, filter_app.
+  rewrite (filter_all_false _ _ c), (filter_all_true _ _ m); [reflexivity| |].
+  - intros x Hx. pose proof (H2 x Hx). apply Z.ltb_lt. unfold chain_height. lia.
+  - intros x Hx. pose proof (H1 x Hx). apply Z.ltb_ge. unfold chain_height. lia.
+Qed.
+
+(* with no ready wallet, connecting the next block of the node's chain is SetSyncedTo and nothing else *)
+Lemma catch_up_ff : forall m1 c A pr rest m2,
+  PInv A pr -> incl A B -> s_own (pr_sim pr) = [] ->
+  synced (s_wallet (pr_sim pr)) = synced_of c -> c <> [] ->
+  s_node (pr_sim pr) = c ++ m1 ++ rest ->
+  catch_up p pr (m1 ++ m2) = catch_up p (fold_left ff_step m1 pr) m2.
+Proof.
+  induction m1 as [|b r IH]; intros c A pr rest m2 Hinv HAB Hown Hsy Hc Hn; [reflexivity|].
+  cbn [app catch_up fold_left].
+  pose proof Hinv as [[Hb Hca] Hinv2].
+  destruct Hinv2 as [Hwfn [Hgn [HnA [c0 [Hwfc0 [Hgc0 [Hc0A Hst]]]]]]].
+  assert (HnB : incl (s_node (pr_sim pr)) B). { intros z Hz. apply HAB. apply HnA. exact Hz. }
+  assert (Hc0B : incl c0 B). { intros z Hz. apply HAB. apply Hc0A. exact Hz. }
+  assert (Hn' : s_node (pr_sim pr) = c ++ b :: (r ++ rest)). { rewrite Hn. reflexivity. }
+  pose proof (process_reorg_gen p (own_of (s_own (pr_sim pr))) (s_node (pr_sim pr)) c0 b c (r ++ rest) Hwfn Hwfc0
+                (same_genesis_from_g g _ _ Hgc0 Hgn) (ids_agree_B B B_ids _ _ Hc0B HnB) Hn' Hc) as Hproc.
+  assert (Hpb : process_best p (own_live pr) (s_node (pr_sim pr)) (pr_best pr) (s_wallet (pr_sim pr)) b
+                = Ok (L p (own_of []) (c ++ [b]))).
+  { unfold own_live. rewrite Hb, Hca, process_best_tip, Hst, Hproc, Hown. reflexivity. }
+  rewrite Hpb.
+  assert (Hff : ff_step pr b =
+                {| pr_sim := with_wallet (pr_sim pr) (L p (own_of []) (c ++ [b])); pr_best := (b_height b, b_id b); pr_cache := pr_cache pr |}).
+  { unfold ff_step. f_equal. f_equal. unfold L. rewrite synced_of_snoc, E_none, Hsy, Hst.
+    cbn [credits L]. rewrite Hown, E_none. reflexivity. }
+  rewrite Hff.
+  (* the invariant for the next step *)
+  assert (Hbin : In b (s_node (pr_sim pr))). { rewrite Hn'. apply in_or_app. right. left. reflexivity. }
+  assert (Hbg : b <> g).
+  { intros Heq. subst b. destruct Hgn as [n' Hgn]. rewrite Hn' in Hgn.
+    destruct c as [|z c']; [contradiction|]. cbn [app] in Hgn. inversion Hgn. subst z.
+    pose proof (wf_bids _ Hwfn) as Hnd. rewrite Hn' in Hnd. cbn [app map] in Hnd.
+    inversion Hnd as [|? ? Hnotin _]. apply Hnotin. rewrite map_app. apply in_or_app. right. left. reflexivity. }
+  destruct (catch_up_one A pr b Hinv HAB Hbin Hbg) as [st' [n1 [n2 [Hproc' [_ [_ Hinv1]]]]]].
+  rewrite Hpb in Hproc'. inversion Hproc' as [Hst']. rewrite <- Hst' in Hinv1.
+  apply (IH (c ++ [b]) A _ rest m2 Hinv1 HAB).
+  - exact Hown.
+  - reflexivity.
+  - destruct c; discriminate.
+  - cbn [pr_sim with_wallet s_node]. rewrite Hn, <- app_assoc. reflexivity.
+Qed.
+
+Lemma start_ff_same : forall tipfix ff A pr,
+  PInv A pr -> incl A B -> 0 <= ff -> on_chain pr ->
+  no_ready_wallet pr && (ff <? chain_height (s_node (pr_sim pr))) = true ->
+  start p tipfix ff g pr = start p tipfix (chain_height (s_node (pr_sim pr))) g pr.
+Proof.
+  intros tipfix ff A pr Hinv HAB Hff [c [m [Hc [Hn Hsy]]]] Hcond.
+  apply andb_true_iff in Hcond. destruct Hcond as [Hnr Hlt].
+  assert (Hown : s_own (pr_sim pr) = []).
+  { unfold no_ready_wallet in Hnr. destruct (s_own (pr_sim pr)); [reflexivity|discriminate]. }
+  unfold start. rewrite Hnr, Hlt, Z.ltb_irrefl. cbn [andb].
+  set (n := s_node (pr_sim pr)) in *. set (hs := fst (tip (s_wallet (pr_sim pr)))).
+  assert (Hwfn : wf_chain n). { destruct Hinv as [_ [H _]]. exact H. }
+  assert (Hwfc : wf_chain c). { rewrite Hn in Hwfn. apply (wf_chain_prefix _ _ Hwfn Hc). }
+  assert (Hhs : hs = chain_height c).
+  { unfold hs. rewrite <- (tip_height_L p (own_of []) c Hwfc). unfold tip, L. cbn [synced].
+    fold (synced_of c) in Hsy. rewrite Hsy. reflexivity. }
+  rewrite Hhs, (above_chain n c m Hwfn Hn Hc).
+  destruct (wf_linked _ Hwfn) as [pv Hl]. rewrite Hn in Hl.
+  destruct (linked_app_tail _ _ _ _ Hl) as [pv' Hlm].
+  set (t := chain_height n - ff).
+  pose proof (filter_height_split m pv' _ t Hlm) as Hsplit.
+  replace (catch_up p pr m) with
+    (catch_up p pr (filter (fun b => b_height b <? t) m ++ filter (fun b => negb (b_height b <? t)) m))
+    by (rewrite <- Hsplit; reflexivity).
+  rewrite (catch_up_ff (filter (fun b => b_height b <? t) m) c A pr
+             (filter (fun b => negb (b_height b <? t)) m) _ Hinv HAB Hown Hsy Hc).
+  - reflexivity.
+  - fold n. rewrite Hn, <- Hsplit. reflexivity.
+Qed.
+
+Lemma start_ok : forall tipfix ff A pr,
+  PInv A pr -> incl A B -> safe_point g ff pr ->
+  exists pr', start p tipfix ff g pr = Some pr' /\ pr' = prun p pr (catchup_events tipfix g pr) /\
+    PInv A pr' /\ s_node (pr_sim pr') = s_node (pr_sim pr) /\ s_own (pr_sim pr') = s_own (pr_sim pr) /\
+    (tipfix = true -> snd (tip (s_wallet (pr_sim pr'))) = b_id (last (s_node (pr_sim pr)) g)).
+Proof.
+  intros tipfix ff A pr Hinv HAB [Hff Hgen].
+  destruct (no_ready_wallet pr && (ff <? chain_height (s_node (pr_sim pr)))) eqn:Hcond.
+  - destruct Hff as [Hff|[Hff0 Hon]]; [discriminate|].
+    rewrite (start_ff_same tipfix ff A pr Hinv HAB Hff0 Hon Hcond).
+    apply (start_ok_noff tipfix _ A pr Hinv HAB); [|exact Hgen].
+    rewrite Z.ltb_irrefl. apply andb_false_r.
+  - apply (start_ok_noff tipfix ff A pr Hinv HAB Hcond Hgen).
 Qed.
 
 End Tip.
@@ -681,3 +826,180 @@ Qed.
 (* the worker's queue rebuilt from the status records holds exactly the unfinished wallets *)
 Lemma treopen_queue : forall t w, In w (t_queue (treopen t)) <-> In w (unfinished (t_status t)).
 Proof. intros t w. reflexivity. Qed.
+
+(* ---------------------------------------------------------------- the worker's queue *)
+
+(* along every run of the task layer the queue holds exactly the wallets whose status record says
+   "unfinished", each once; so the queue the restart rebuilds from the records ([treopen]) has
+   the same members as the queue the crash lost (the order may differ: the live queue is in
+   request order, the rebuilt one in record order) *)
+Definition tinv (t : tasks) : Prop :=
+  NoDup (map fst (t_status t)) /\ NoDup (t_queue t) /\
+  forall w, In w (t_queue t) <-> In w (unfinished (t_status t)).
+
+Lemma in_unfinished : forall l w, In w (unfinished l) <-> exists s, In (w, s) l /\ s <> WReady.
+Proof.
+  intros l w. unfold unfinished. rewrite in_map_iff. split.
+  - intros [[w' s] [Hw Hin]]. cbn in Hw. subst w'. apply filter_In in Hin. destruct Hin as [Hin Hs].
+    exists s. split; [exact Hin|]. cbn in Hs. intros Heq. subst s. discriminate.
+  - intros [s [Hin Hs]]. exists (w, s). split; [reflexivity|]. apply filter_In. split; [exact Hin|].
+    cbn. destruct s; [contradiction|reflexivity|reflexivity].
+Qed.
+
+Lemma status_of_in : forall l w s, NoDup (map fst l) -> (status_of l w = Some s <-> In (w, s) l).
+Proof.
+  induction l as [|[x sx] l IH]; intros w s Hnd.
+  - cbn. split; [discriminate|intros []].
+  - cbn [map fst] in Hnd. inversion Hnd as [|? ? Hnotin Hnd']. subst.
+    unfold status_of in *. cbn [find fst]. destruct (x =? w)%N eqn:Hx.
+    + apply N.eqb_eq in Hx. subst x. cbn [snd]. split.
+      * intros H. inversion H. left. reflexivity.
+      * intros [H|H]; [inversion H; reflexivity|].
+        exfalso. apply Hnotin. apply in_map_iff. exists (w, s). split; [reflexivity|exact H].
+    + apply N.eqb_neq in Hx. rewrite (IH w s Hnd'). split.
+      * intros H. right. exact H.
+      * intros [H|H]; [inversion H; contradiction|exact H].
+Qed.
+
+Lemma set_status_fst : forall l w s, map fst (set_status l w s) = map fst l.
+Proof.
+  intros l w s. unfold set_status. rewrite map_map. apply map_ext_in. intros [x sx] _. cbn [fst].
+  destruct (x =? w)%N eqn:Hx; [apply N.eqb_eq in Hx; subst; reflexivity|reflexivity].
+Qed.
+
+Lemma in_set_status : forall l w s x sx,
+  In (x, sx) (set_status l w s) <-> (x = w /\ sx = s /\ In w (map fst l)) \/ (x <> w /\ In (x, sx) l).
+Proof.
+  intros l w s x sx. unfold set_status. rewrite in_map_iff. split.
+  - intros [[y sy] [Heq Hin]]. cbn [fst] in Heq. destruct (y =? w)%N eqn:Hy.
+    + apply N.eqb_eq in Hy. subst y. inversion Heq. subst x sx. left.
+      split; [reflexivity|split; [reflexivity|]]. apply in_map_iff. exists (w, sy). split; [reflexivity|exact Hin].
+    + apply N.eqb_neq in Hy. inversion Heq. subst y sy. right. split; [exact Hy|exact Hin].
+  - intros [[Hx [Hs Hin]]|[Hx Hin]].
+    + subst x sx. apply in_map_iff in Hin. destruct Hin as [[y sy] [Hy Hin]]. cbn in Hy. subst y.
+      exists (w, sy). cbn [fst]. rewrite N.eqb_refl. split; [reflexivity|exact Hin].
+    + exists (x, sx). cbn [fst]. apply N.eqb_neq in Hx. rewrite Hx. split; [reflexivity|exact Hin].
+Qed.
+
+Lemma in_del_status : forall l w x sx, In (x, sx) (del_status l w) <-> x <> w /\ In (x, sx) l.
+Proof.
+  intros l w x sx. unfold del_status. rewrite filter_In. cbn [fst]. split.
+  - intros [Hin Hx]. apply negb_true_iff in Hx. apply N.eqb_neq in Hx. split; assumption.
+  - intros [Hx Hin]. split; [exact Hin|]. apply negb_true_iff. apply N.eqb_neq. exact Hx.
+Qed.
+
+Lemma NoDup_map_filter : forall (l : list (N * wstat)) f, NoDup (map fst l) -> NoDup (map fst (filter f l)).
+Proof.
+  induction l as [|a l IH]; intros f H; [constructor|].
+  cbn [map] in H. inversion H as [|? ? Hn Hd]. subst. cbn [filter]. destruct (f a).
+  - cbn [map]. constructor; [|apply IH; exact Hd].
+    intros Hin. apply Hn. apply in_map_iff in Hin. destruct Hin as [y [Hy Hin]].
+    apply filter_In in Hin. apply in_map_iff. exists y. split; [exact Hy|tauto].
+  - apply IH. exact Hd.
+Qed.
+
+Lemma NoDup_rotate : forall (w : N) q, NoDup (w :: q) -> NoDup (q ++ [w]).
+Proof.
+  intros w q H. inversion H as [|? ? Hn Hd]. subst. apply NoDup_app_intro.
+  - exact Hd.
+  - constructor; [intros []|constructor].
+  - intros x Hx [Hw|[]]. subst x. contradiction.
+Qed.
+
+Lemma tstep_inv : forall t e, tinv t -> tfresh t e -> tinv (tstep t e).
+Proof.
+  intros t e [Hk [Hq Hiff]] Hf. destruct e as [w|w|w|fin]; cbn [tstep tfresh] in *.
+  - (* create *)
+    split; [|split; [exact Hq|]]; cbn [t_status t_queue].
+    + rewrite map_app. apply NoDup_app_intro; [exact Hk|constructor; [intros []|constructor]|].
+      intros x Hx [Hw|[]]. cbn in Hw. subst x. contradiction.
+    + intros x. rewrite Hiff, !in_unfinished. split; intros [s [Hin Hs]]; exists s; split; try exact Hs.
+      * apply in_or_app. left. exact Hin.
+      * apply in_app_or in Hin. destruct Hin as [Hin|[Hin|[]]]; [exact Hin|inversion Hin; subst; contradiction].
+  - (* import *)
+    split; [|split]; cbn [t_status t_queue].
+    + rewrite map_app. apply NoDup_app_intro; [exact Hk|constructor; [intros []|constructor]|].
+      intros x Hx [Hw|[]]. cbn in Hw. subst x. contradiction.
+    + apply NoDup_app_intro; [exact Hq|constructor; [intros []|constructor]|].
+      intros x Hx [Hw|[]]. subst x. apply Hiff in Hx. apply in_unfinished in Hx. destruct Hx as [s [Hin _]].
+      apply Hf. apply in_map_iff. exists (w, s). split; [reflexivity|exact Hin].
+    + intros x. rewrite in_app_iff, Hiff, !in_unfinished. split.
+      * intros [[s [Hin Hs]]|[Hx|[]]].
+        -- exists s. split; [apply in_or_app; left; exact Hin|exact Hs].
+        -- subst x. exists WImporting. split; [apply in_or_app; right; left; reflexivity|discriminate].
+      * intros [s [Hin Hs]]. apply in_app_or in Hin. destruct Hin as [Hin|[Hin|[]]].
+        -- left. exists s. split; assumption.
+        -- inversion Hin. right. left. reflexivity.
+  - (* remove *)
+    destruct (status_of (t_status t) w) as [[| |]|] eqn:Hst; try (split; [exact Hk|split; [exact Hq|exact Hiff]]).
+    apply (status_of_in _ _ _ Hk) in Hst.
+    assert (Hwk : In w (map fst (t_status t))). { apply in_map_iff. exists (w, WReady). split; [reflexivity|exact Hst]. }
+    assert (Hnu : ~ In w (unfinished (t_status t))).
+    { intros Hu. apply in_unfinished in Hu. destruct Hu as [s [Hin Hs]].
+      apply (status_of_in _ _ _ Hk) in Hin. apply (status_of_in _ _ _ Hk) in Hst. rewrite Hst in Hin. inversion Hin. subst s. contradiction. }
+    split; [|split]; cbn [t_status t_queue].
+    + rewrite set_status_fst. exact Hk.
+    + apply NoDup_app_intro; [exact Hq|constructor; [intros []|constructor]|].
+      intros x Hx [Hw|[]]. subst x. apply Hnu. apply Hiff. exact Hx.
+    + intros x. rewrite in_app_iff, Hiff, !in_unfinished. split.
+      * intros [[s [Hin Hs]]|[Hx|[]]].
+        -- exists s. split; [|exact Hs]. apply in_set_status. right. split; [|exact Hin].
+           intros Heq. subst x. apply Hnu. apply in_unfinished. exists s. split; assumption.
+        -- subst x. exists WRemoving. split; [|discriminate]. apply in_set_status. left. tauto.
+      * intros [s [Hin Hs]]. apply in_set_status in Hin. destruct Hin as [[Hx _]|[Hx Hin]].
+        -- right. left. symmetry. exact Hx.
+        -- left. exists s. split; assumption.
+  - (* one step of the worker *)
+    destruct (t_queue t) as [|w q] eqn:Hqe; [split; [exact Hk|split; [rewrite Hqe; exact Hq|rewrite Hqe; exact Hiff]]|].
+    assert (Hwq : ~ In w q). { inversion Hq. assumption. }
+    assert (Hqd : NoDup q). { inversion Hq. assumption. }
+    assert (Hwu : In w (unfinished (t_status t))). { apply Hiff. left. reflexivity. }
+    apply in_unfinished in Hwu. destruct Hwu as [sw [Hwin Hsw]].
+    pose proof (proj2 (status_of_in _ _ _ Hk) Hwin) as Hst.
+    destruct fin.
+    + rewrite Hst. destruct sw; [contradiction| |].
+      * (* import finished *)
+        split; [|split]; cbn [t_status t_queue].
+        -- rewrite set_status_fst. exact Hk.
+        -- exact Hqd.
+        -- intros x. rewrite in_unfinished. split.
+           ++ intros Hx. assert (Hxw : x <> w). { intros Heq. subst x. contradiction. }
+              assert (Hxu : In x (unfinished (t_status t))). { apply Hiff. right. exact Hx. }
+              apply in_unfinished in Hxu. destruct Hxu as [s [Hin Hs]].
+              exists s. split; [|exact Hs]. apply in_set_status. right. split; assumption.
+           ++ intros [s [Hin Hs]]. apply in_set_status in Hin. destruct Hin as [[_ [Hs' _]]|[Hx Hin]].
+              ** subst s. contradiction.
+              ** assert (Hxq : In x (w :: q)). { apply Hiff. apply in_unfinished. exists s. split; assumption. }
+                 destruct Hxq as [Hxq|Hxq]; [symmetry in Hxq; contradiction|exact Hxq].
+      * (* removal finished *)
+        split; [|split]; cbn [t_status t_queue].
+        -- apply NoDup_map_filter. exact Hk.
+        -- exact Hqd.
+        -- intros x. rewrite in_unfinished. split.
+           ++ intros Hx. assert (Hxw : x <> w). { intros Heq. subst x. contradiction. }
+              assert (Hxu : In x (unfinished (t_status t))). { apply Hiff. right. exact Hx. }
+              apply in_unfinished in Hxu. destruct Hxu as [s [Hin Hs]].
+              exists s. split; [|exact Hs]. apply in_del_status. split; assumption.
+           ++ intros [s [Hin Hs]]. apply in_del_status in Hin. destruct Hin as [Hx Hin].
+              assert (Hxq : In x (w :: q)). { apply Hiff. apply in_unfinished. exists s. split; assumption. }
+              destruct Hxq as [Hxq|Hxq]; [symmetry in Hxq; contradiction|exact Hxq].
+    + (* not finished: pushed again *)
+      split; [exact Hk|split]; cbn [t_status t_queue].
+      * apply NoDup_rotate. exact Hq.
+      * intros x. rewrite <- Hiff, in_app_iff. cbn [In]. tauto.
+Qed.
+
+Theorem tasks_resumed : forall es,
+  tfresh_all {| t_status := []; t_queue := [] |} es ->
+  let t := trun {| t_status := []; t_queue := [] |} es in
+  forall w, In w (t_queue (treopen t)) <-> In w (t_queue t).
+Proof.
+  intros es Hf t w.
+  assert (Hinv : tinv t).
+  { unfold t. assert (H0 : tinv {| t_status := []; t_queue := [] |}).
+    { split; [constructor|split; [constructor|intros x; cbn; tauto]]. }
+    revert H0 Hf. generalize {| t_status := []; t_queue := [] |}.
+    induction es as [|e r IH]; intros t0 H0 Hf; [exact H0|].
+    cbn [trun fold_left]. destruct Hf as [Hf1 Hf2]. apply IH; [apply tstep_inv; assumption|exact Hf2]. }
+  destruct Hinv as [_ [_ Hiff]]. cbn [treopen t_queue]. symmetry. apply Hiff.
+Qed.
